@@ -1004,46 +1004,135 @@ func ruleDaemonLog(r *Run) {
 func ruleParseDockerLine(r *Run, fn *ssa.Function, inputIdx, recIdx int) {
 	o := r.Ob("PV-CONST", "dockerlog.parseDockerLine", "the line is cut at the first space: the part before is parsed as RFC3339Nano into both timestamps, the part after is the body, unaltered")
 	good := true
-	var cut, tparse *ssa.Call
-	for _, c := range callsIn(fn) {
-		if call, ok := c.(*ssa.Call); ok {
-			if callIs(call, "strings", "Cut") {
+	input, rec := fn.Params[inputIdx], fn.Params[recIdx]
+	// the split at the first space, in one of two spellings:
+	//   before, after, found := strings.Cut(input, " ")
+	//   sep := strings.IndexByte(input, ' ') (or strings.Index(input, " ")); before = input[:sep]; after = input[sep+1:]; found = sep >= 0
+	var cut, idx, tparse *ssa.Call
+	grp := funcGroup(fn)
+	for _, g := range grp {
+		for _, c := range callsIn(g) {
+			call, ok := c.(*ssa.Call)
+			if !ok {
+				continue
+			}
+			if g == fn && callIs(call, "strings", "Cut") {
 				cut = call
+			}
+			if g == fn && (callIs(call, "strings", "IndexByte") || callIs(call, "strings", "Index") || callIs(call, "strings", "IndexRune")) {
+				idx = call
 			}
 			if callIs(call, "time", "Parse") {
 				tparse = call
 			}
 		}
 	}
-	if cut == nil || tparse == nil {
+	if (cut == nil && idx == nil) || tparse == nil {
 		o.Fail(r.pos(fn.Pos()), "strings.Cut call=%v time.Parse call=%v", cut != nil, tparse != nil)
 		return
 	}
-	input, rec := fn.Params[inputIdx], fn.Params[recIdx]
-	if cut.Call.Args[0] != ssa.Value(input) {
-		good = false
-		o.Fail(r.pos(cut.Pos()), "strings.Cut is applied to %s", describe(cut.Call.Args[0], 0))
-	}
-	if sep, ok := constStr(cut.Call.Args[1]); !ok || sep != " " {
-		good = false
-		o.Fail(r.pos(cut.Pos()), "separator is %s, not a single space", describe(cut.Call.Args[1], 0))
-	}
-	ex := func(i int) ssa.Value {
-		for _, ref := range *cut.Referrers() {
-			if e, ok := ref.(*ssa.Extract); ok && e.Index == i {
-				return e
+	var isBefore, isAfter func(v ssa.Value) bool
+	var found ssa.Value // true when the space exists
+	foundWhen := true   // the truth value of `found` that means "exists"
+	if cut != nil {
+		if cut.Call.Args[0] != ssa.Value(input) {
+			good = false
+			o.Fail(r.pos(cut.Pos()), "strings.Cut is applied to %s", describe(cut.Call.Args[0], 0))
+		}
+		if sep, ok := constStr(cut.Call.Args[1]); !ok || sep != " " {
+			good = false
+			o.Fail(r.pos(cut.Pos()), "separator is %s, not a single space", describe(cut.Call.Args[1], 0))
+		}
+		ex := func(i int) ssa.Value {
+			for _, ref := range *cut.Referrers() {
+				if e, ok := ref.(*ssa.Extract); ok && e.Index == i {
+					return e
+				}
+			}
+			return nil
+		}
+		before, after := ex(0), ex(1)
+		found = ex(2)
+		isBefore = func(v ssa.Value) bool { return before != nil && v == before }
+		isAfter = func(v ssa.Value) bool { return after != nil && v == after }
+	} else {
+		if idx.Call.Args[0] != ssa.Value(input) {
+			good = false
+			o.Fail(r.pos(idx.Pos()), "the first space is looked for in %s", describe(idx.Call.Args[0], 0))
+		}
+		sepOK := false
+		if sp, ok := constStr(idx.Call.Args[1]); ok && sp == " " {
+			sepOK = true
+		}
+		if k, ok := constInt(idx.Call.Args[1]); ok && k == ' ' {
+			sepOK = true
+		}
+		if !sepOK {
+			good = false
+			o.Fail(r.pos(idx.Pos()), "separator is %s, not a single space", describe(idx.Call.Args[1], 0))
+		}
+		isBefore = func(v ssa.Value) bool {
+			sl, ok := unspill(v).(*ssa.Slice)
+			return ok && sl.X == ssa.Value(input) && sl.Low == nil && sl.High == ssa.Value(idx)
+		}
+		isAfter = func(v ssa.Value) bool {
+			sl, ok := unspill(v).(*ssa.Slice)
+			if !ok || sl.X != ssa.Value(input) || sl.High != nil {
+				return false
+			}
+			b, ok := sl.Low.(*ssa.BinOp)
+			if !ok || b.Op != token.ADD {
+				return false
+			}
+			k, isK := constInt(b.Y)
+			return b.X == ssa.Value(idx) && isK && k == 1
+		}
+		// found: a comparison of the index with 0 / -1 that decides a branch
+		for _, ref := range *idx.Referrers() {
+			b, ok := ref.(*ssa.BinOp)
+			if !ok {
+				continue
+			}
+			k, isK := constInt(b.Y)
+			if b.X != ssa.Value(idx) || !isK {
+				continue
+			}
+			switch {
+			case b.Op == token.LSS && k == 0, b.Op == token.EQL && k == -1, b.Op == token.LEQ && k == -1:
+				found, foundWhen = b, false
+			case b.Op == token.GEQ && k == 0, b.Op == token.NEQ && k == -1, b.Op == token.GTR && k == -1:
+				found, foundWhen = b, true
 			}
 		}
-		return nil
 	}
-	before, after, found := ex(0), ex(1), ex(2)
 	if layout, ok := constStr(tparse.Call.Args[0]); !ok || layout != "2006-01-02T15:04:05.999999999Z07:00" {
 		good = false
 		o.Fail(r.pos(tparse.Pos()), "timestamp layout is %s, not time.RFC3339Nano", describe(tparse.Call.Args[0], 0))
 	}
-	if before == nil || tparse.Call.Args[1] != before {
-		good = false
-		o.Fail(r.pos(tparse.Pos()), "time.Parse is applied to %s, not the part before the first space", describe(tparse.Call.Args[1], 0))
+	// the text handed to time.Parse: the part before the space, directly or through a helper's parameter
+	th := tparse.Parent()
+	var helperCall *ssa.Call
+	if th == fn {
+		if !isBefore(tparse.Call.Args[1]) {
+			good = false
+			o.Fail(r.pos(tparse.Pos()), "time.Parse is applied to %s, not the part before the first space", describe(tparse.Call.Args[1], 0))
+		}
+	} else {
+		pi := -1
+		for i, q := range th.Params {
+			if spillParam(unspill(tparse.Call.Args[1])) == ssa.Value(q) || tparse.Call.Args[1] == ssa.Value(q) {
+				pi = i
+			}
+		}
+		for _, c := range callsIn(fn) {
+			if call, ok := c.(*ssa.Call); ok && staticCallee(call) == th {
+				helperCall = call
+			}
+		}
+		if pi < 0 || helperCall == nil || pi >= len(helperCall.Call.Args) || !isBefore(helperCall.Call.Args[pi]) {
+			good = false
+			o.Fail(r.pos(tparse.Pos()), "time.Parse (in %s) is not applied to the part before the first space", shortFuncName(th))
+		}
 	}
 	bodyOK, tsOK, otsOK := false, false, false
 	var parsedTS ssa.Value
@@ -1052,39 +1141,66 @@ func ruleParseDockerLine(r *Run, fn *ssa.Function, inputIdx, recIdx int) {
 			parsedTS = e
 		}
 	}
-	fromParsed := func(v ssa.Value) bool {
-		seen := map[ssa.Value]bool{}
-		var walk func(v ssa.Value) bool
-		walk = func(v ssa.Value) bool {
-			if v == nil || seen[v] {
-				return false
-			}
-			seen[v] = true
-			if v == parsedTS {
-				return true
-			}
-			switch x := v.(type) {
-			case *ssa.Call:
-				callee := x.Common().StaticCallee()
-				if callee != nil && cname(callee) == "NewTimestampFromTime" && len(x.Call.Args) == 1 {
-					return walk(x.Call.Args[0])
+	var fromParsedIn func(f *ssa.Function, v ssa.Value, seen map[ssa.Value]bool) bool
+	fromParsedIn = func(f *ssa.Function, v ssa.Value, seen map[ssa.Value]bool) bool {
+		if v == nil || seen[v] {
+			return false
+		}
+		seen[v] = true
+		if v == parsedTS {
+			return true
+		}
+		switch x := v.(type) {
+		case *ssa.Extract:
+			// the helper that parses the timestamp: its first result derives from the parsed time on
+			// every successful return
+			if c, ok := x.Tuple.(*ssa.Call); ok && helperCall != nil && c == helperCall && x.Index == 0 {
+				okAll, n := true, 0
+				for _, ret := range returnsOf(th) {
+					if len(ret.Results) < 2 || !isNilConst(ret.Results[len(ret.Results)-1]) {
+						continue
+					}
+					n++
+					if !fromParsedIn(th, ret.Results[0], map[ssa.Value]bool{}) {
+						okAll = false
+					}
 				}
-			case *ssa.UnOp:
-				if x.Op == token.MUL {
-					if f, base, ok := fieldNameOf(x.X); ok && base == ssa.Value(rec) && (f == "ObservedTimestamp" || f == "Timestamp") {
-						// r.Timestamp = r.ObservedTimestamp
-						for _, st := range allStoresToField(fn, rec, f) {
-							if walk(st.Val) {
-								return true
-							}
+				return okAll && n > 0
+			}
+		case *ssa.Call:
+			callee := x.Common().StaticCallee()
+			if callee != nil && cname(callee) == "NewTimestampFromTime" && len(x.Call.Args) == 1 {
+				return fromParsedIn(f, x.Call.Args[0], seen)
+			}
+		case *ssa.Phi:
+			for _, e := range x.Edges {
+				if !fromParsedIn(f, e, seen) {
+					return false
+				}
+			}
+			return len(x.Edges) > 0
+		case *ssa.UnOp:
+			if x.Op == token.MUL {
+				if fl, base, ok := fieldNameOf(x.X); ok && f == fn && base == ssa.Value(rec) && (fl == "ObservedTimestamp" || fl == "Timestamp") {
+					// r.Timestamp = r.ObservedTimestamp
+					for _, st := range allStoresToField(fn, rec, fl) {
+						if fromParsedIn(f, st.Val, seen) {
+							return true
+						}
+					}
+				}
+				if al, ok := x.X.(*ssa.Alloc); ok {
+					for _, st := range storesTo(al) {
+						if fromParsedIn(f, st.Val, seen) {
+							return true
 						}
 					}
 				}
 			}
-			return false
 		}
-		return walk(v)
+		return false
 	}
+	fromParsed := func(v ssa.Value) bool { return fromParsedIn(fn, v, map[ssa.Value]bool{}) }
 	allInstrs(fn, func(in ssa.Instruction) {
 		st, ok := in.(*ssa.Store)
 		if !ok {
@@ -1096,7 +1212,7 @@ func ruleParseDockerLine(r *Run, fn *ssa.Function, inputIdx, recIdx int) {
 		}
 		switch n {
 		case "Body":
-			if st.Val == after {
+			if isAfter(st.Val) {
 				bodyOK = true
 			} else {
 				good = false
@@ -1122,9 +1238,9 @@ func ruleParseDockerLine(r *Run, fn *ssa.Function, inputIdx, recIdx int) {
 		good = false
 		o.Fail(r.pos(fn.Pos()), "fields set: Body=%v Timestamp=%v ObservedTimestamp=%v", bodyOK, tsOK, otsOK)
 	}
-	// !found -> error
+	// no space -> error
 	if found != nil {
-		w := &feWalker{Fn: fn, Assume: map[ssa.Value]constant.Value{found: constant.MakeBool(false)}}
+		w := &feWalker{Fn: fn, Assume: map[ssa.Value]constant.Value{found: constant.MakeBool(!foundWhen)}}
 		for _, e := range w.Run() {
 			if isErr, known := endReturnsError(e); !(known && isErr) {
 				good = false
@@ -1133,10 +1249,10 @@ func ruleParseDockerLine(r *Run, fn *ssa.Function, inputIdx, recIdx int) {
 		}
 	} else {
 		good = false
-		o.Fail(r.pos(cut.Pos()), "the found result of strings.Cut is ignored: a line without a space would be accepted")
+		o.Fail(r.pos(fn.Pos()), "whether a space was found is never tested: a line without a space would be accepted")
 	}
 	if good {
-		o.OK("Cut(input, \" \"); Body = after; time.Parse(RFC3339Nano, before) -> Timestamp, ObservedTimestamp; no space -> error").At(r.pos(fn.Pos()))
+		o.OK("split at the first space; Body = after; time.Parse(RFC3339Nano, before) -> Timestamp, ObservedTimestamp; no space -> error").At(r.pos(fn.Pos()))
 	}
 }
 
